@@ -6,6 +6,8 @@ import (
 	"fmt"
 	"os"
 	"runtime"
+	"runtime/debug"
+	"runtime/metrics"
 	"sort"
 	"strconv"
 	"strings"
@@ -128,6 +130,15 @@ func runOne(t *testing.T, w *World, run int, seed uint64, rp *ReplayFile, trace 
 
 var workerStates = map[uint64]struct{}{}
 
+var heapSample = []metrics.Sample{{Name: "/memory/classes/heap/objects:bytes"}}
+
+func collectIfNeeded(done int) {
+	metrics.Read(heapSample)
+	if heapSample[0].Value.Uint64() > 128<<20 || done%16 == 0 {
+		runtime.GC()
+	}
+}
+
 // TestWorker is the worker entry point; it is driven entirely by environment variables.
 func TestWorker(t *testing.T) {
 	wname := os.Getenv("VERIF_WORLD")
@@ -157,6 +168,10 @@ func TestWorker(t *testing.T) {
 		out.Flush()
 	}
 	trace := os.Getenv("VERIF_TRACE") != ""
+	// No garbage collection while a run is in progress (it would make quiescence detection
+	// and the run-queue order depend on heap state); collect between runs instead.
+	debug.SetGCPercent(-1)
+	debug.SetMemoryLimit(6 << 30)
 
 	// Watchdog outside the bubble: real time.
 	var lastRun atomic.Int64
@@ -215,6 +230,7 @@ func TestWorker(t *testing.T) {
 		res := runOne(t, w, i, seed, nil, trace)
 		emit(res)
 		done++
+		collectIfNeeded(done)
 		if res.Leaked && os.Getenv("VERIF_EXIT_ON_LEAK") != "" {
 			break
 		}
